@@ -173,8 +173,10 @@ def eval_any(case, rng):
         flows.append(gen.random_tls_flow(rng, len(flows), nmax=6, version=0x0304, code=rng.choice([0x1301, 0x1302, 0x1303]), hrr=True, min_records=1))
     noise = []
     for k in range(rng.choice([0, 0, 1, 3])):
-        kind = rng.choice(["http", "udp", "udpq", "other", "link"])
-        if kind == "link":
+        kind = rng.choice(["http", "udp", "udpq", "other", "link", "bigjunk"])
+        if kind == "bigjunk":
+            noise.append(scene.big_junk_on_443(rng, k, rng.random() < 0.4))
+        elif kind == "link":
             noise.append(scene.link_noise(rng, rng.randrange(1, 5), k))
         elif kind == "http":
             noise.append(scene.http_on_443(rng, k, rng.random() < 0.4))
